@@ -145,6 +145,39 @@ def make_job(sde_type, noise, method, adjoint_method):
     return Job(f'{sde_type}-{noise}-{method}-{adjoint_method}', fn)
 
 
+def make_forward_only_job(sde_type, noise, method, adjoint_method):
+    """Clause (1) alone for solvers that carry extra state (reversible Heun): the real sdeint_adjoint returns the values (and the extra
+    solver state) the real sdeint returns, including the initial extra state computed at (ts[0], y0); the adjoint method handed to the
+    backward pass is the one asked for (or the documented default)."""
+    def fn(E, rep, tier):
+        rep.bounded_mode = BOUND
+        rep.under_contract('torchsde._core.adjoint.sdeint_adjoint', 'torchsde._core.adjoint._SdeintAdjointMethod.forward', 'torchsde._core.sdeint.sdeint')
+        prepare(E)
+        S = setup(E, sde_type, noise, 1)
+        cx = S.cx
+        pbm = AC.PathBM((1, S.m), 'none')
+        bm = pbm.stub()
+        y0 = XT(H.sym_array('y0', (1, 1)))
+        ts = AC.ts_tensor([Fraction(1, 8), Fraction(5, 8), Fraction(9, 8)])      # ts[0] != 0 and != ts[1]: a wrong initial time is visible
+        sdeint = E.module('torchsde._core.sdeint').globals['sdeint']
+        sdeint_adjoint = E.module('torchsde._core.adjoint').globals['sdeint_adjoint']
+        tag = f'C09[{sde_type},{noise},method={method},adjoint_method={adjoint_method}]'
+        g0 = GradMode(False)
+        g0.__pyvc_enter__(cx)
+        ra = E.call(sdeint, [S.user, y0, ts], dict(bm=bm, method=method, dt=Fraction(1, 4), extra=True), cx, 0)
+        g0.__pyvc_exit__(cx)
+        rb = E.call(sdeint_adjoint, [S.user, y0, ts], dict(bm=bm, method=method, adjoint_method=adjoint_method, dt=Fraction(1, 4), extra=True,
+                                                           adjoint_params=[S.params[0]]), cx, 0)
+        AC.arr_eq_obligations(rep, f'{tag}/forward.sdeint_adjoint==sdeint', rb[0], ra[0], 'same solution values for the same arguments and Brownian motion')
+        for k, (xa, xb) in enumerate(zip(ra[1], rb[1])):
+            AC.arr_eq_obligations(rep, f'{tag}/forward.extra-solver-state[{k}]', xb, xa)
+        want_am = adjoint_method if adjoint_method is not None else ('adjoint_reversible_heun' if method == 'reversible_heun' else 'midpoint')
+        got_am = E.last_fn_ctx.fields.get('adjoint_method')
+        rep.add(f'{tag}/routing.adjoint-method-handed-to-backward', 'post', 'discharged' if got_am == want_am else 'refuted', 'pyvc-exec',
+                model=None if got_am == want_am else {'got': got_am, 'want': want_am})
+    return Job(f'forward-{sde_type}-{noise}-{method}-{adjoint_method}', fn)
+
+
 def make_isolation_job(method, adjoint_method):
     """"only the tensors asked for receive gradients": the real sdeint_adjoint is executed on an SDE with two parameters that both require
     grad, with adjoint_params = [theta0].  Gradients reach leaves only through the tensor arguments of _SdeintAdjointMethod.apply for which
@@ -231,7 +264,10 @@ def jobs(tier):
     out = [make_job(*c) for c in CASES if c[2] != 'srk']
     out += [uses_c11(j) for j in C11.jobs(tier) if tier == 'thorough' or j.name.endswith('nograd')]
     out += [make_isolation_job('midpoint', 'midpoint'), make_isolation_job('reversible_heun', 'adjoint_reversible_heun'),
-            make_isolation_job('euler_heun', 'heun'), Job('adjoint-params-selection', job_adjoint_params_selection)]
+            make_isolation_job('euler_heun', 'heun'), Job('adjoint-params-selection', job_adjoint_params_selection),
+            make_forward_only_job('stratonovich', 'diagonal', 'reversible_heun', 'adjoint_reversible_heun'),
+            make_forward_only_job('stratonovich', 'general', 'reversible_heun', None),
+            make_forward_only_job('stratonovich', 'diagonal', 'midpoint', None)]
     for noise in ('diagonal', 'general'):
         for pattern in ('all', 'last-zero', 'middle-only'):
             j = C10.make_e2e_job(noise, pattern)
